@@ -157,7 +157,7 @@ int main(int argc, char **argv) {
         if (!v.ok()) { std::cout << "REPLAY-FAIL " << algo << " k=" << kk << " " << v.kind << ": " << v.detail << std::endl; return 1; }
         std::cout << "REPLAY-OK" << std::endl; return 0;
     }
-    if (o.thorough) { o.max_exh_n = 6; o.nrandom = 2000; o.shuffles = 3; } else { o.max_exh_n = 5; o.nrandom = 400; }
+    if (o.thorough) { o.max_exh_n = 6; o.nrandom = 20000; o.shuffles = 6; o.rnd_max_dim = 11; } else { o.max_exh_n = 5; o.nrandom = 400; }
     for_each_graph(o, [&](TGraph &t) {
         McbOracle opt = mcb_bruteforce(t);
         std::vector<std::size_t> ks = {0, 1, 2, 3, 5, (std::size_t) std::max(1, t.n)};
